@@ -69,7 +69,13 @@ def run(env, rep):
                 continue
             found += 1
             rep.check("C19.R2", loops.loop_key(se, head), ok, "L4: " + why, "the payload-splitting loop may not terminate: " + why, se.blocks[head]["term"]["span"])
-        rep.floor("C19.R2", "counted stride loops in serialize", found, 1)
+        # the split may instead be delegated to <[T]>::chunks(n), which needs n >= 1 (it panics on 0 - refused values must not get here)
+        for o in ctx.interp(se.key).walk():
+            if o.kind == "precond:chunks":
+                found += 1
+                rep.check("C19.R2", "serialize|" + o.what, o.proved, "the payload is split by chunks(n) with n >= 1: " + o.detail,
+                          "the payload is split by chunks(n) and n may be 0 (%s): serialize would panic for a chunk size that was accepted" % o.detail, o.span)
+        rep.floor("C19.R2", "payload splitting constructs in serialize (counted stride loop or chunks(n))", found, 1)
         # ------------------------------------------------------------------ R3
         it = ctx.interp(se.key)
         n3 = 0
